@@ -51,6 +51,8 @@ n=$(cat "$D/runs" 2>/dev/null || echo 0); n=$((n+1)); echo $n > "$D/runs"
   done
 } > "$D/dump.$n"
 cp "$BINDING_CONTEXT_PATH" "$D/context.$n"
+c=$(cat "$D/chatter" 2>/dev/null || echo 0)
+if [ "$c" -gt 0 ]; then head -c "$c" /dev/zero | tr '\000' 'x' | fold -w 100 >&2; fi
 [ -f "$D/metrics.out" ] && cat "$D/metrics.out" > "$METRICS_PATH"
 [ -f "$D/patch.out" ] && cat "$D/patch.out" > "$KUBERNETES_PATCH_PATH"
 [ -f "$D/admission.out" ] && cat "$D/admission.out" > "$ADMISSION_RESPONSE_PATH"
@@ -75,7 +77,7 @@ var c12variants = []string{"untouched", "valid", "truncated", "wrong-type"}
 
 var c12seenPaths = map[string]bool{}
 
-func c12run(exit int, variant [4]int, nctx int, relTmp bool) (sig, what, outcome string) {
+func c12run(exit int, variant [4]int, nctx int, relTmp bool, chatter int) (sig, what, outcome string) {
 	base, err := os.MkdirTemp(fxBaseDir(), "zzverif-c12-")
 	if err != nil {
 		panic(err)
@@ -87,6 +89,10 @@ func c12run(exit int, variant [4]int, nctx int, relTmp bool) (sig, what, outcome
 	}
 	_ = os.WriteFile(filepath.Join(hooksDir, "hook.sh"), []byte(c12script), 0o755)
 	_ = os.WriteFile(filepath.Join(caseDir, "exit"), []byte(fmt.Sprint(exit)), 0o644)
+	if chatter > 0 {
+		// a talkative hook (set -x, a verbose child command): what it prints decides nothing
+		_ = os.WriteFile(filepath.Join(caseDir, "chatter"), []byte(fmt.Sprint(chatter)), 0o644)
+	}
 	for i, f := range c12files {
 		if variant[i] > 0 {
 			_ = os.WriteFile(filepath.Join(caseDir, f+".out"), []byte(c12contents[f][variant[i]]), 0o644)
@@ -273,10 +279,15 @@ func TestVerifC12a(t *testing.T) {
 			if relTmp {
 				key += "|tmp-dir=relative"
 			}
+			chatter := 0
+			if ord%7 == 3 {
+				chatter = 200000
+				key += "|stderr=200KB"
+			}
 			if !r.Want(key) {
 				continue
 			}
-			sig, what, outcome := c12run(exit, variant, nctx, relTmp)
+			sig, what, outcome := c12run(exit, variant, nctx, relTmp, chatter)
 			r.Eval(1)
 			r.Transition(1)
 			if sig != "" {
